@@ -149,6 +149,12 @@ def cache_history(ctx, queries, rng):
                           {'area': [[area.ymin, area.ymax], [area.xmin, area.xmax]], 'origin': [origin.y, origin.x], 'fancy': True})
 
 
+class _LargestDraw:
+    def random(self, size=None, *a, **k):
+        v = float(np.nextafter(1.0, 0.0))
+        return v if size is None else np.full(size, v)
+
+
 def unobstructed(ctx, h, w, origin):
     """an unobstructed ray-traced view shows everything"""
     grid = Grid([[Floor() for _ in range(w)] for _ in range(h)])
@@ -161,6 +167,25 @@ def unobstructed(ctx, h, w, origin):
         missing = [(y, x) for y in range(h) for x in range(w) if not vis[y, x]]
         ctx.violation('rays', 'visibility.unobstructed_hides', f'unobstructed {h}x{w} view from {(origin.y, origin.x)} hides {missing[:6]}',
                       'vis_case', {'shape': [h, w], 'origin': [origin.y, origin.x]})
+    # the same through the other parametrisations of the ray-traced view: with nothing in the way every ray reaches every cell
+    # lit, so every absolute count is >= 1 and every lit fraction is exactly 1
+    for kw in ({'absolute_counts': False, 'threshold': 1}, {'absolute_counts': False, 'threshold': 1.0},
+               {'absolute_counts': False, 'threshold': 0.5}, {'absolute_counts': True, 'threshold': 1}):
+        ok, vis = call_real(visibility_fs.visibility_function_registry['raytracing'], grid, origin, **kw)
+        ctx.hit('unobstructed_visibility.parametrised')
+        if ok and not bool(vis.all()):
+            missing = [(y, x) for y in range(h) for x in range(w) if not vis[y, x]]
+            ctx.violation('rays', 'visibility.unobstructed_hides', f'unobstructed {h}x{w} view from {(origin.y, origin.x)} with {kw} hides '
+                          f'{missing[:6]}', 'vis_case', {'shape': [h, w], 'origin': [origin.y, origin.x]})
+    # stochastic variant: with nothing in the way every cell is lit on every ray, whatever the generator returns
+    for seed in (0, 1, 'largest_draw'):
+        # the last generator returns the largest possible uniform draw (just below 1) for every cell
+        g = np.random.default_rng(seed) if seed != 'largest_draw' else _LargestDraw()
+        ok, vis = call_real(visibility_fs.visibility_function_registry['stochastic_raytracing'], grid, origin, rng=g)
+        if ok and not bool(vis.all()):
+            missing = [(y, x) for y in range(h) for x in range(w) if not vis[y, x]]
+            ctx.violation('rays', 'visibility.unobstructed_hides', f'unobstructed {h}x{w} stochastic view from {(origin.y, origin.x)} hides '
+                          f'{missing[:6]}', 'vis_case', {'shape': [h, w], 'origin': [origin.y, origin.x]})
 
 
 def run(ctx):
@@ -236,6 +261,26 @@ def run(ctx):
                     ok2, ray2 = call_real(rt.compute_ray, origin, area, radians=rad, step_size=0.01)
                     if ok2 and as_cells([ray]) != as_cells([ray2]):
                         ctx.violation('rays', 'ray.nondeterministic', f'{pl}: two computations differ', 'ray_case', pl)
+        # single rays in areas more than a thousand cells long (whole fans are out of reach there: minutes each)
+        for k in range(ctx.pick(6, 60)):
+            if not ctx.mine(k):
+                continue
+            rng = gen.rng_for('C19long', ctx.seed, k)
+            length = rng.choice([1001, 1200, 1500, 2500, 4097])
+            h, w = (rng.randint(1, 3), length) if k % 2 else (length, rng.randint(1, 3))
+            area = Area((0, h - 1), (0, w - 1))
+            origin = Position(rng.randrange(min(h, 3)), rng.randrange(min(w, 3)))
+            far = (h - 1, rng.randrange(w)) if h > w else (rng.randrange(h), w - 1)
+            rad = math.atan2(far[0] - origin.y, far[1] - origin.x)
+            for r in (rad, rad + 1e-4, rad - 1e-4):
+                ok, ray = call_real(rt.compute_ray, origin, area, radians=r, step_size=0.01)
+                ctx.ev()
+                ctx.hit('long_ray.checked')
+                pl = {'area': [[area.ymin, area.ymax], [area.xmin, area.xmax]], 'origin': [origin.y, origin.x], 'radians': r}
+                if not ok:
+                    ctx.violation('rays', 'ray.raises', describe_exc(ray), 'ray_case', pl)
+                else:
+                    check_ray(ctx, ray, origin, area, f'ray {pl}', pl)
         # cache histories
         rng = gen.rng_for('C19cache', ctx.seed, ctx.shard)
         queries = []
